@@ -1,10 +1,80 @@
 """C03 - left-recursive grammars are rejected; accepted grammars always terminate."""
 from drivers import ll
+from vcheck import Machinery
+
+TOK = (r"(?P<SPACE>\s+)|(?P<WORD>[a-z][a-z0-9]*)|(?P<COMMA>,)|(?P<BO>\[)|(?P<BC>\])")
+SYN = {'COMMA': ',', 'BO': '[', 'BC': ']'}
+TEXTS = ['w', 'w [ ]', 'w [ a ]', 'w [ a , b ]', 'w [ a b ]', 'w [ a , ]', 'w [ , ]', 'w a', 'w a , b', 'w a b', 'w ,', 'w [ a , , b ]']
+
+
+def template_case(c, smart):
+    """one option set of specs/llparser/LLListExpand.tla on the real ListProds; -> problem or None"""
+    from ak import llparser
+    o = c['opt']
+    if c['dup']:
+        return None                  # two equal adjacent productions: the constructor refuses them for another reason
+    prods = {'E': [('WORD', 'LIST')], 'IT': [('WORD',), None] if o['itemnull'] else [('WORD',)]}
+    delim = {'none': None, 'term': ',', 'ntnull': 'OC', 'nt': 'CM'}[o['delim']]
+    if o['delim'] == 'ntnull':
+        prods['OC'] = [(',',), None]
+    elif o['delim'] == 'nt':
+        prods['CM'] = [(',',)]
+    try:
+        prods['LIST'] = llparser.ListProds('[' if o['br'] else None, 'IT', delim, ']' if o['br'] else None,
+                                           allow_final_delimiter=o['afd'], optional=o['optional'])
+    except AssertionError:
+        return None                  # a combination of options the template does not offer
+    cls = ll.parser_class()
+    where = 'ListProds(%r, IT, %r, %r, allow_final_delimiter=%s, optional=%s), IT %s, smart=%s' % (
+        '[' if o['br'] else None, delim, ']' if o['br'] else None, o['afd'], o['optional'],
+        'nullable' if o['itemnull'] else 'not nullable', smart)
+    try:
+        p = cls(TOK, synonyms=SYN, productions=prods, smart_factorization=smart)
+        outcome = 'ok'
+    except llparser.GrammarIsRecursive:
+        outcome = 'GrammarIsRecursive'
+    except (llparser.GrammarError, AssertionError):
+        return None                  # rejected for another reason (e.g. nullable items without a delimiter): no verdict
+    if c['leftrec'] != (outcome == 'GrammarIsRecursive'):
+        return '%s: constructor %s, but the productions the template generates %s left recursive (symbols %s): %s' % (
+            where, 'accepted the grammar' if outcome == 'ok' else 'raised GrammarIsRecursive',
+            'are' if c['leftrec'] else 'are not', c['lrsyms'], c['prods'])
+    if outcome != 'ok':
+        return None
+    for text in TEXTS:
+        try:
+            p.parse_counted(text, ll.STEP_BUDGET)
+        except ll._Budget:
+            return '%s: parse(%r) does not return within %d machine steps' % (where, text, ll.STEP_BUDGET)
+        except llparser.Error:
+            pass
+        except RecursionError:
+            return '%s: parse(%r) raised RecursionError' % (where, text)
+    return None
+
+
+def templates(ctx):
+    r = ctx.tlc('llparser/LLListExpand.tla', 'SPECIFICATION Spec\nCHECK_DEADLOCK FALSE\nINVARIANT TerminalDelimiterIsSafe\n',
+                workers=4, timeout=1200)
+    cases = [c for c in r.printed if isinstance(c, dict)]
+    if len(cases) != 64:
+        raise Machinery('LLListExpand emitted %d option sets' % len(cases))
+    nrec = 0
+    for c in cases:
+        nrec += 1 if c['leftrec'] and not c['dup'] else 0
+        for smart in (True, False):
+            prob = template_case(c, smart)
+            if prob:
+                ctx.violation({'template': c, 'smart': smart}, prob)
+    ctx.extra['list_template_option_sets'] = {'total': len(cases), 'left_recursive_expansions': nrec}
 
 
 def run(ctx):
     ll.explore(ctx, 'C03')
+    templates(ctx)
 
 
 def replay(ctx, case):
+    if 'template' in case:
+        return template_case(case['template'], case['smart'])
     return ll.replay_case(ctx, case, 'C03')
